@@ -25,6 +25,27 @@ type errReader struct{}
 
 func (errReader) Read([]byte) (int, error) { return 0, errors.New("source failed") }
 
+// scriptedWriter: "ok" takes everything; "err" takes k bytes and fails; "short" takes k bytes and reports no error
+type scriptedWriter struct {
+	mode  string
+	k     int
+	calls int
+	got   []byte
+}
+
+func (w *scriptedWriter) Write(p []byte) (int, error) {
+	w.calls++
+	n := len(p)
+	if w.mode != "ok" && w.k < n {
+		n = w.k
+	}
+	w.got = append(w.got, p[:n]...)
+	if w.mode == "err" {
+		return n, errors.New("destination failed")
+	}
+	return n, nil
+}
+
 func goSemString(r *h.Rand) string {
 	n := r.Intn(9)
 	var b []byte
@@ -81,7 +102,7 @@ func goSemCases(cx *ctx) {
 				}
 				return "0"
 			}
-			switch rr2.Intn(20) {
+			switch rr2.Intn(21) {
 			case 12:
 				var xs, hs []string
 				for i := rr2.Intn(6); i > 0; i-- {
@@ -170,6 +191,26 @@ func goSemCases(cx *ctx) {
 					cls = "err"
 				}
 				return &h.Case{Kind: "gosem-readalllimit", Line: fmt.Sprintf("goreadalllimit %s %d", h.Hex(data), n), Impl: fmt.Sprintf("%s %s rest=%d", h.Hex(got), cls, len(rest)), NonTrivial: true}
+			case 20: // (*bytes.Buffer).WriteTo on writers that take everything, fail after k bytes, or take k bytes silently
+				data := []byte(s)
+				mode := []string{"ok", "err", "short"}[rr2.Intn(3)]
+				k := 0
+				if len(data) > 0 {
+					k = rr2.Intn(len(data) + 1)
+				}
+				sw := &scriptedWriter{mode: mode, k: k}
+				var buf bytes.Buffer
+				buf.Write(data)
+				n, err := buf.WriteTo(sw)
+				cls := "nil"
+				switch {
+				case err == io.ErrShortWrite:
+					cls = "short"
+				case err != nil:
+					cls = "err"
+				}
+				return &h.Case{Kind: "gosem-bufwriteto", Line: fmt.Sprintf("gobufwriteto %s %s %d", h.Hex(data), mode, k),
+					Impl: fmt.Sprintf("%d %s rest=%d calls=%d got=%s", n, cls, buf.Len(), sw.calls, h.Hex(sw.got)), NonTrivial: true}
 			case 14:
 				data := []byte(s)
 				delim := byte('\n')
